@@ -158,6 +158,9 @@ def _pure(e, allow_list=False):
             return all(_pure(a) for a in e.args)
         if isinstance(e.func, ast.Attribute) and isinstance(e.func.value, ast.Name) and e.func.value.id == 'np' and e.func.attr in NP_PURE:
             return all(_pure(a, True) for a in e.args)
+        if isinstance(e.func, ast.Attribute) and isinstance(e.func.value, ast.Name) and e.func.value.id == 'math' \
+                and e.func.attr in ('ceil', 'floor', 'log2', 'log', 'sqrt', 'erf', 'exp', 'fabs', 'trunc', 'log10', 'pow'):
+            return all(_pure(a) for a in e.args)      # functions of the math module: a value (or an exception) determined by the arguments
         if isinstance(e.func, ast.Attribute) and e.func.attr in PURE_METHODS:
             return _pure(e.func.value) and all(_pure(a) for a in e.args)
     return False
@@ -361,13 +364,60 @@ def _collect_int_names(fn):
     return out
 
 
+_INT_ATTRS = set()
+
+
+def _collect_int_attrs(cls):
+    """self.X attributes every assignment of which (anywhere in the class) is an integer-valued expression (len(), int(), math.ceil/floor, integer
+    constants and their + - * combinations)."""
+    if cls is None:
+        return set()
+    vals = {}
+    for n in ast.walk(cls):
+        tg = []
+        if isinstance(n, ast.Assign):
+            tg = [(t, n.value) for t in n.targets]
+        elif isinstance(n, ast.AugAssign):
+            tg = [(n.target, None)]
+        elif isinstance(n, ast.AnnAssign) and n.value is not None:
+            tg = [(n.target, n.value)]
+        for t, v in tg:
+            for x in ([t] if not isinstance(t, (ast.Tuple, ast.List)) else t.elts):
+                if isinstance(x, ast.Attribute) and isinstance(x.value, ast.Name) and x.value.id == 'self':
+                    vals.setdefault(x.attr, []).append(v if not isinstance(t, (ast.Tuple, ast.List)) else None)
+
+    def iv(e):
+        if e is None:
+            return False
+        if isinstance(e, ast.Constant):
+            return type(e.value) is int
+        if isinstance(e, ast.Call) and not e.keywords and isinstance(e.func, ast.Name) and e.func.id in ('len', 'int'):
+            return True
+        if isinstance(e, ast.Call) and not e.keywords and isinstance(e.func, ast.Attribute) and isinstance(e.func.value, ast.Name) and e.func.value.id == 'math' \
+                and e.func.attr in ('ceil', 'floor', 'trunc'):
+            return True
+        if isinstance(e, ast.BinOp) and isinstance(e.op, (ast.Add, ast.Sub, ast.Mult, ast.FloorDiv)):
+            return iv(e.left) and iv(e.right)
+        return False
+    return {a for a, vs in vals.items() if vs and all(iv(v) for v in vs)}
+
+
 def _is_int_expr(e):
     if isinstance(e, ast.Constant):
         return type(e.value) is int
+    if isinstance(e, ast.Attribute) and isinstance(e.value, ast.Name) and e.value.id == 'self' and e.attr in _INT_ATTRS:
+        return True
+    if isinstance(e, ast.Call) and not e.keywords and isinstance(e.func, ast.Attribute) and isinstance(e.func.value, ast.Name) and e.func.value.id == 'math' \
+            and e.func.attr in ('ceil', 'floor', 'trunc'):
+        return True
     if isinstance(e, ast.Name):
         return e.id in _INT_NAMES
     if isinstance(e, ast.Call) and isinstance(e.func, ast.Name) and e.func.id in ('len', 'int'):
         return True
+    if isinstance(e, ast.Attribute) and e.attr in ('ndim', 'size', 'itemsize', 'nbytes'):
+        return True      # integer attributes of ndarrays
+    if isinstance(e, ast.Subscript) and isinstance(e.value, ast.Attribute) and e.value.attr == 'shape' and not isinstance(e.slice, ast.Slice):
+        return True      # x.shape[k]
     if isinstance(e, ast.BinOp) and isinstance(e.op, (ast.Add, ast.Sub, ast.Mult)):
         return _is_int_expr(e.left) and _is_int_expr(e.right)
     return False
@@ -684,7 +734,8 @@ def _scalar_names(fn):
             if not all(sv(v) for v in binds[t]):
                 cand.discard(t)
                 changed = True
-    return cand
+    # a local that is used as a plain subscript index or range() argument holds an integer there (the assumption _collect_int_names states)
+    return cand | ((_collect_int_names(fn) & set(binds)) - bad)
 
 
 class _AugNorm(ast.NodeTransformer):
@@ -1042,9 +1093,22 @@ def _helper_table(fn, module_tree, cls):
         if isinstance(st, ast.FunctionDef) and st is not fn:
             tab[('fn', st.name)] = st
     if cls is not None:
-        for st in cls.body:
-            if isinstance(st, ast.FunctionDef) and st is not fn:
-                tab[('method', st.name)] = st
+        # methods of the class and, below them in precedence, of its base classes defined in the same module (self._helper() may be inherited)
+        classes = {c.name: c for c in module_tree.body if isinstance(c, ast.ClassDef)}
+        chain, seen, cur = [], set(), cls
+        while cur is not None and cur.name not in seen:
+            chain.append(cur)
+            seen.add(cur.name)
+            nxt = None
+            for b in cur.bases:
+                if isinstance(b, ast.Name) and b.id in classes:
+                    nxt = classes[b.id]
+                    break
+            cur = nxt
+        for c in reversed(chain):
+            for st in c.body:
+                if isinstance(st, ast.FunctionDef) and st is not fn:
+                    tab[('method', st.name)] = st
     for st in ast.walk(fn):
         if isinstance(st, ast.FunctionDef) and st is not fn:
             tab[('fn', st.name)] = st
@@ -1072,6 +1136,37 @@ def _inline(fn, module_tree, cls, depth=0, budget=None, only=None):
 
     outer = fn
     used_closures = set()
+    caller_bound = _bindings(fn)
+
+    # a call of an inlinable helper whose argument is neither a plain reference nor pure (`f(g(*a))`) cannot be inlined as it stands, while the
+    # same call with the argument bound to a temporary first (`t = g(*a); f(t)`) can: hoist such arguments, so that both spellings meet
+    hoisted = [0]
+    for _o, _f, body in list(_blocks(fn)):
+        i = 0
+        while i < len(body):
+            st = body[i]
+            call = st.value if isinstance(st, (ast.Return, ast.Assign, ast.Expr)) and isinstance(getattr(st, 'value', None), ast.Call) else None
+            if call is not None and not call.keywords and not any(isinstance(a, ast.Starred) for a in call.args) and isinstance(call.func, ast.Name) \
+                    and ('fn', call.func.id) in tab and prep(('fn', call.func.id)) is not None and _single_return(prep(('fn', call.func.id))) is not None:
+                pre = []
+                ok = True
+                for k, a in enumerate(call.args):
+                    if _simple_arg(a) or _pure(a):
+                        continue
+                    if not all(_simple_arg(x) or _pure(x) for x in call.args[:k]) and pre == []:
+                        ok = False
+                        break
+                    nm = f'_kv_h{hoisted[0]}'
+                    hoisted[0] += 1
+                    pre.append(ast.Assign(targets=[ast.Name(id=nm, ctx=ast.Store())], value=a))
+                    call.args[k] = ast.Name(id=nm, ctx=ast.Load())
+                if ok and pre:
+                    for p_ in pre:
+                        ast.copy_location(p_, st)
+                        ast.fix_missing_locations(p_)
+                    body[i:i] = pre
+                    i += len(pre)
+            i += 1
     caller_bound = _bindings(fn)
 
     class T(ast.NodeTransformer):
@@ -1791,7 +1886,8 @@ def _normalise_body(fn, module_tree, cls, depth=0, rename=True):
                     if isinstance(s, ast.AnnAssign) and s.value is not None and s.simple:
                         b[k] = ast.Assign(targets=[s.target], value=s.value, lineno=s.lineno)
     from . import canon2
-    global _INT_NAMES
+    global _INT_NAMES, _INT_ATTRS
+    _INT_ATTRS = _collect_int_attrs(cls)
     canon2.scope_comprehensions(fn)
     for _ in range(3):
         before = ast.dump(fn)
@@ -1813,6 +1909,7 @@ def _normalise_body(fn, module_tree, cls, depth=0, rename=True):
         canon2.sink_into_arms(fn)
         canon2.for_over_listcomp(fn)
         _guards(fn)
+        canon2.cond_rebind(fn)
         _comprehensions(fn)
         canon2.orient(fn)
         if rename:
@@ -1844,7 +1941,7 @@ def directed(fn, ref_fn, module_tree, ref_tree, cls, ref_cls):
     mt = ast.Module(body=[x for x in module_tree.body if x is not fn], type_ignores=[])
     c = None
     if cls is not None:
-        c = ast.ClassDef(name=cls.name, bases=[], keywords=[], body=[x for x in cls.body if x is not fn], decorator_list=[])
+        c = ast.ClassDef(name=cls.name, bases=list(cls.bases), keywords=[], body=[x for x in cls.body if x is not fn], decorator_list=[])
 
     def free(p):
         t = clone(ref_fn)
@@ -1899,6 +1996,6 @@ def canon_text(fn, module_tree=None, cls=None):
     if mt is not None:
         mt = ast.Module(body=[s for s in mt.body if s is not fn], type_ignores=[])
     if c is not None:
-        c = ast.ClassDef(name=c.name, bases=[], keywords=[], body=[s for s in c.body if s is not fn], decorator_list=[])
+        c = ast.ClassDef(name=c.name, bases=list(c.bases), keywords=[], body=[s for s in c.body if s is not fn], decorator_list=[])
     _normalise_body(f, mt, c)
     return ast.unparse(f)
